@@ -106,6 +106,15 @@ def _pm_smear(case, v):
                            "as/S_ref", "as/fuel_vol_delta") and e / tol * 1e-7 <= 50.0 * cross[0] + 1e-6
 
 
+# ---------------------------------------------------------------------------------------------- C01
+@predicate("c01_fuel_vol_delta_partial_polluted")
+def _c01_fvd(case, v):
+    # WingboxFuelVolDelta halves inputs["fuelburn"] in place on symmetric surfaces: its complex-step partials are polluted at the 1e-4..1e-3 level
+    t = _tags(v)
+    e = v.get("err")
+    return (v["family"] == "c01/WingboxFuelVolDelta" and "symmetry" in t and "of=fuel_vol_delta" in t and e is not None and e <= 5e-3)
+
+
 # ---------------------------------------------------------------------------------------------- C15
 @predicate("wingbox_spar_bending_sign")
 def _wb_spar_sign(case, v):
